@@ -12,13 +12,15 @@ LEVEL = 'exploration'
 BUDGET_S = {'quick': 75, 'thorough': 1500}
 EXHAUSTIVE = {'quick': False, 'thorough': False}
 RULE = ("Runs are derived from (VERIF_SEED, index). Each run builds a fresh core from a seeded configuration "
-        "(arch 5/6/7, security/virtualization ext, PMSA/VMSA, LPAE) and a seeded state, then executes a stream of words "
+        "(arch 4-7, security/virtualization ext, PMSA/VMSA, LPAE, ThumbEE/Jazelle/MP switches; MPU region sets; short-descriptor tables with pages, sections "
+        "and supersections, long-descriptor stage 1, Hyp stage 1, stage 2) and a seeded state, then executes a stream of words "
         "(random 32-bit, bit-flipped vocabulary encodings, valid vocabulary encodings; thorough tier adds the complete 16-bit "
-        "Thumb space in each IT position) one per tick at the current PC, with IRQ/FIQ/reset/regime events at seeded ticks. "
+        "Thumb space in each IT position; both tiers sweep hw1[15:4] of the 32-bit Thumb space and bits 27:20 x 7:4 of the ARM space with seeded fields and "
+        "range-edge operand values) one per tick at the current PC, with IRQ/FIQ/reset/regime events at seeded ticks. "
         "distinct_nontrivial counts distinct (executed opcode class or decoder outcome, mode, ISA, IT position) tuples observed.")
 ASSUMPTIONS = [
-    "valid machine state = legal CPSR.M for the configuration and J=0 (Jazelle/ThumbEE do not exist in the configurations used); "
-    "the supervisor clears J if an UNPREDICTABLE exception return sets it and counts that (probe j-cleared)",
+    "valid machine state = legal CPSR.M for the configuration, and J=1 only where the configuration has ThumbEE (with T=1) or Jazelle (with T=0); "
+    "the supervisor clears J if an UNPREDICTABLE exception return sets it elsewhere and counts that (probe j-cleared)",
     "NotImplementedError is the documented 'unimplemented feature' outcome and is counted per site, not flagged",
     "sampled, not enumerated: only the 16-bit sweep of the thorough tier is complete, and only per IT position with seeded register state",
 ]
